@@ -60,9 +60,9 @@ def fp_case(draw, tier, shard=0, nshards=1, histories=False):
     }
     if histories:
         k = draw(st.integers(1, 3))
-        nw = draw(st.integers(1, 3))
+        nw = 2  # static for the jitted step: keep the number of distinct compilations small
         c["fields"] = draw(gens.real((k, nw, nchol), -4.0, 4.0))
-        c["dt"] = draw(st.sampled_from([0.005, 0.01, 0.05]))
+        c["dt"] = draw(st.sampled_from([0.01, 0.05]))
         c["walkers_extra"] = [draw(gens.walker(norb, nelec, frame=gens.reference_frame(kind, norb, nelec, params))) for _ in range(nw - 1)]
     return c
 
@@ -242,6 +242,6 @@ def block_body(ctx, case):
 
 SUBCHECKS = [
     SubCheck("field_average", body=avg_body, strategy=avg_strategy, examples={"quick": 4, "thorough": 50}, shards={"quick": 3, "thorough": 6}, shrink=False),
-    SubCheck("norm_bookkeeping_histories", body=hist_body, strategy=hist_strategy, examples={"quick": 10, "thorough": 120}, shards={"quick": 3, "thorough": 6}),
+    SubCheck("norm_bookkeeping_histories", body=hist_body, strategy=hist_strategy, examples={"quick": 10, "thorough": 120}, shards={"quick": 3, "thorough": 6}, shrink=False),
     SubCheck("free_block_energy", body=block_body, strategy=block_strategy, examples={"quick": 6, "thorough": 60}, shards={"quick": 2, "thorough": 4}, shrink=False),
 ]
